@@ -44,11 +44,12 @@ Proof. reflexivity. Qed.
 
 (* the regenerated patterns satisfy what the termination proof needs: rule patterns and the helper patterns whose
    matches move a cursor are well-formed and cannot match the empty string *)
-Lemma inline_cfg_ok : forall hw refs C, inline_cfg hw refs = Some C -> cfg_ok C.
+Lemma inline_cfg_ok : forall px hw refs C, inline_cfg_x px hw refs = Some C -> cfg_ok C.
 Proof.
-  intros hw refs C H. unfold inline_cfg in H. destruct (opt_all _) as [rules|]; [|discriminate]. inversion H; subst C; clear H.
-  constructor; cbn [c_spec c_square c_label c_bracket_start c_bracket c_href_inline c_title c_paren_end c_emph_end].
-  - intros r. destruct hw; destruct r; vm_compute; reflexivity.
+  intros px hw refs C H. unfold inline_cfg_x in H. destruct (opt_all _) as [rules|]; [|discriminate]. inversion H; subst C; clear H.
+  constructor; cbn [c_spec c_square c_label c_bracket_start c_bracket c_href_inline c_title c_paren_end c_emph_end c_ext].
+  - intros r. destruct hw; destruct r as [| | | | | | | | | | |i]; try (vm_compute; reflexivity);
+      (do 7 (destruct i as [|i]; [vm_compute; reflexivity|])); vm_compute; reflexivity.
   - vm_compute; reflexivity.
   - vm_compute; reflexivity.
   - vm_compute; reflexivity.
@@ -59,20 +60,23 @@ Proof.
   - intros mk er He. unfold emph_end in He.
     repeat (match type of He with (if ?b then _ else _) = _ => destruct b end; [inversion He; subst er; vm_compute; reflexivity|]).
     discriminate.
+  - intros i name er He. unfold ext_kind in He.
+    do 7 (destruct i as [|i]; [cbn in He; inversion He; subst; vm_compute; reflexivity || discriminate|]). destruct i; discriminate.
 Qed.
 
-Example C01_inline_cfg_exists : forall hw refs, match inline_cfg hw refs with Some C => List.length (c_rules C) = (if hw then 8 else 9) | None => False end.
-Proof. intros hw refs. destruct hw; unfold inline_cfg; cbv beta; match goal with |- context [opt_all ?l] => let v := eval vm_compute in (opt_all l) in change (opt_all l) with v end; reflexivity. Qed.
+Example C01_inline_cfg_exists : forall px hw refs, match inline_cfg_x px hw refs with Some C => List.length (c_rules C) = ((if px then 6 else 0) + (if hw then 8 else 9)) | None => False end.
+Proof. intros px hw refs. destruct px; destruct hw; unfold inline_cfg_x; cbv beta; match goal with |- context [opt_all ?l] => let v := eval vm_compute in (opt_all l) in change (opt_all l) with v end; reflexivity. Qed.
 
-(* InlineParser.parse terminates for every text, both hard_wrap settings and every reference table *)
-Theorem C01_inline_parser_terminates : forall hw refs C s, inline_cfg hw refs = Some C -> inline_parse C s <> Fuel.
-Proof. intros hw refs C s H. apply inline_parse_terminates. exact (inline_cfg_ok hw refs C H). Qed.
+(* InlineParser.parse terminates for every text, both hard_wrap settings, with or without the six inline plugins of the
+   model (strikethrough, mark, insert, superscript, subscript, url), and every reference table *)
+Theorem C01_inline_parser_terminates : forall px hw refs C s, inline_cfg_x px hw refs = Some C -> inline_parse C s <> Fuel.
+Proof. intros px hw refs C s H. apply inline_parse_terminates. exact (inline_cfg_ok px hw refs C H). Qed.
 
 (* every handler that reports a position reports one at or beyond the end of the match that triggered it, so the
    cursor of the scanner loop strictly increases *)
-Theorem C01_inline_cursor_advances : forall hw refs C fuel rk m src fl np toks fl' p, inline_cfg hw refs = Some C ->
+Theorem C01_inline_cursor_advances : forall px hw refs C fuel rk m src fl np toks fl' p, inline_cfg_x px hw refs = Some C ->
   handle C fuel rk m src fl = Ok (np, toks, fl') -> truthy np = Some p -> mend m <= p.
-Proof. intros hw refs C fuel rk m src fl np toks fl' p H. apply inline_step_advances. exact (inline_cfg_ok hw refs C H). Qed.
+Proof. intros px hw refs C fuel rk m src fl np toks fl' p H. apply inline_step_advances. exact (inline_cfg_ok px hw refs C H). Qed.
 
 Example C01_inline_example :
   match inline_cfg false [] with
